@@ -748,7 +748,10 @@ func (r *rewriter) rewriteSelect(sel *ast.SelectStmt, label string) (string, boo
 	b.WriteString(fmt.Sprintf("for _simk := 0; _simk < %d && _simch < 0; _simk++ {\nswitch _simord[_simk] {\n%s}\n}\n", n, polls.String()))
 	b.WriteString("if _simch < 0 {\nselect {\n" + blocking.String() + "}\n}\n")
 	b.WriteString("simrt.W(" + st + ")\n")
-	b.WriteString(lbl + "switch _simch {\n" + bodies.String() + "}\n}")
+	// The default clause is never reached (_simch is one of the cases); it keeps Go's terminating-statement
+	// analysis as it was for the select: a function whose last statement is a select with a return in
+	// every case still compiles ("missing return" otherwise).
+	b.WriteString(lbl + "switch _simch {\n" + bodies.String() + "default:\npanic(\"simrt: rewritten select chose no case\")\n}\n}")
 	r.note("select-multi")
 	return b.String(), true
 }
